@@ -1,13 +1,24 @@
 /-! C16: rate limiter (`rate/limiter.go`, `rate/interface.go`) as a transition system.  Core-only.
 
-Limiters are numbered in creation order (`0` = the root made by `rate.New`).  Everything that happens while
-`controller.lock` is held is one atomic step (the sends on the answer channels inside the critical sections go to
-channels with buffer 1 that receive exactly one value — see `C16.answer_exactly_once` — so they never block).  The
-ticker goroutine and the goroutine calling root `Close` have program counters, because their lock acquisitions and the
-hand-over on the unbuffered `done` channel are the places where they can block.
+Limiters are numbered in creation order (`0` = the root made by `rate.New`).  `controller.lock` is a field of the state
+(`holder`): it is taken and released by explicit steps, and a step that needs the lock is enabled only while it is free.
 
-The history fields `answered`, `glog`, `nextReq`, `ticks` record what happened (they do not influence the behaviour);
-the driver prints its answers from them, the theorems of `Props/C16.lean` are stated about them. -/
+* the ticker goroutine: `select` → (tick) wait for the lock → lock → body (`reset` + service loop) → unlock → `select`;
+  → (`done` received) wait for the lock → lock → drain → unlock → end;
+* the goroutine in root `Close` that finds the root open: lock → mark the tree → unlock → send on `done` (the unbuffered
+  hand-over is one joint step of sender and receiver) → return.  `StepU` is the same system with the order of the code
+  before commit 3e6b23a: send on `done` while still holding the lock, unlock afterwards;
+* every other call (`Use`, `New`, `SetCap`, child `Close`, `Cap`, `LastUsed`, `Closed`, a second root `Close`):
+  `apiLock` (any number of callers compete for the lock; the one that gets it is "the API holder"), then ONE step that
+  executes the body and releases the lock.  Body and unlock are fused because the holder does nothing that can block
+  between them: the sends on the answer channels go to channels of capacity 1 that receive exactly one value
+  (`C16.answer_exactly_once`).  `Cap`/`LastUsed`/`Closed` take the lock in read mode; they are modelled as exclusive
+  holders (`apiRead`), which only removes interleavings of readers that do not change the state.
+
+The history fields `answered`, `glog`, `nextReq`, `ticks`, `setCaps`, `capHi`, `capMax` record what happened (they do not
+influence the behaviour); the driver prints its answers from them, the theorems of `Props/C16.lean` are stated about
+them.  They are written in the same step as the action they record — that each action writes them correctly is part of
+the transcription (checked by the correspondence run), not a theorem. -/
 namespace RL
 
 /-- the value delivered on the channel returned by `Use` (`ok` = nil; three classes of errors) -/
@@ -30,13 +41,18 @@ structure Grant where
   period : Nat
 deriving Repr
 
-/-- ticker goroutine: at the `select` | tick received, waiting for the lock | `done` received, waiting for the lock
-    (final drain) | returned -/
-inductive TPC | sel | tlock | dlock | tend
+/-- ticker goroutine: at the `select` | tick received, waiting for the lock | holding the lock before the body | body
+    done, before the unlock | `done` received, waiting for the lock | holding it before the drain | drained, before the
+    unlock | returned -/
+inductive TPC | sel | tlock | tcrit | tunl | dlock | dcrit | dunl | tend
 deriving DecidableEq, Repr
-/-- the goroutine inside root `Close`: not started | subtree marked and lock released, blocked on `done <- true` |
-    returned -/
-inductive CPC | idle | send | ret
+/-- the goroutine inside root `Close`: not started | holds the lock, root found open | tree marked, still holding the
+    lock | lock released, blocked on `done <- true` | returned | (`unl`: only in the unrepaired order `StepU` — `done`
+    handed over, lock still held) -/
+inductive CPC | idle | crit | marked | send | ret | unl
+deriving DecidableEq, Repr
+/-- who holds `controller.lock` -/
+inductive Holder | free | ticker | closer | api
 deriving DecidableEq, Repr
 
 structure S where
@@ -54,15 +70,20 @@ structure S where
   ticks : Nat                     -- history: number of the current period
   setCaps : Nat                   -- history: number of `SetCap` calls so far
   capHi : Nat                     -- history: the largest capacity ever passed to `New` / `SetCap`
+  capMax : Nat → Nat → Nat        -- history: `capMax p x` = the largest capacity limiter `x` had at any moment of period `p`
   tpc : TPC
   cpc : CPC
-  lockHeld : Bool                 -- `controller.lock` is held *between* two steps
+  holder : Holder                 -- `controller.lock`
+
+/-- the lock is held by somebody -/
+def S.lockHeld (s : S) : Bool := s.holder != .free
 
 /-- `rate.New(capacity, period)` -/
 def init (rootCap : Nat) : S :=
   { n := 1, cap := fun _ => rootCap, chain := fun x => if x = 0 then [0] else [], used := fun _ => 0,
     last := fun _ => 0, closed := fun _ => false, unlinked := fun _ => false, waiting := [], answered := [],
-    nextReq := 0, glog := [], ticks := 0, setCaps := 0, capHi := rootCap, tpc := .sel, cpc := .idle, lockHeld := false }
+    nextReq := 0, glog := [], ticks := 0, setCaps := 0, capHi := rootCap,
+    capMax := fun _ _ => rootCap, tpc := .sel, cpc := .idle, holder := .free }
 
 def upd {α : Type} (f : Nat → α) (i : Nat) (v : α) : Nat → α := fun x => if x = i then v else f x
 
@@ -119,54 +140,100 @@ def doUseWait (s : S) (l amt : Nat) : S :=
 def doNewChild (s : S) (p c : Nat) : S :=
   { s with n := s.n + 1, cap := upd s.cap s.n c, chain := upd s.chain s.n (s.n :: s.chain p),
            used := upd s.used s.n 0, last := upd s.last s.n 0, closed := upd s.closed s.n false,
-           unlinked := upd s.unlinked s.n false, capHi := max s.capHi c }
+           unlinked := upd s.unlinked s.n false, capHi := max s.capHi c,
+           capMax := fun p x => if p = s.ticks ∧ x = s.n then c else s.capMax p x }
 /-- `Close` of a non-root limiter that is still open: mark the subtree, unlink from the parent -/
 def doCloseChild (s : S) (l : Nat) : S :=
   { s with closed := fun x => s.closed x || decide (l ∈ s.chain x), unlinked := upd s.unlinked l true }
-/-- root `Close`, first half (as repaired): mark everything closed under the lock, release the lock -/
-def doCloseRootMark (s : S) : S := { s with closed := fun _ => true, cpc := .send }
+def lockApi (s : S) : S := { s with holder := .api }
+def unlock (s : S) : S := { s with holder := .free }
+/-- root `Close`: `l.controller.lock.Lock()` -/
+def doCloseLock (s : S) : S := { s with cpc := .crit, holder := .closer }
+/-- root `Close`: `l.close()` — mark everything closed (under the lock) -/
+def doCloseRootMark (s : S) : S := { s with closed := fun _ => true, cpc := .marked }
+/-- root `Close` finds the root already closed: unlock, return -/
+def doCloseSkip (s : S) : S := { s with cpc := .ret, holder := .free }
+/-- root `Close`, as repaired: release the lock BEFORE signalling the ticker goroutine -/
+def doCloseUnlock (s : S) : S := { s with cpc := .send, holder := .free }
+/-- unrepaired order: `done <- true` is handed over while the closer still holds the lock … -/
+def doSendHeld (s : S) : S := { s with tpc := .dlock, cpc := .unl }
+/-- … and the deferred unlock comes afterwards -/
+def doUnlockAfter (s : S) : S := { s with cpc := .ret, holder := .free }
 def doTickFires (s : S) : S := { s with tpc := .tlock }
+def doTickLock (s : S) : S := { s with tpc := .tcrit, holder := .ticker }
+def doTickUnlock (s : S) : S := { s with tpc := .sel, holder := .free }
+def doDrainLock (s : S) : S := { s with tpc := .dcrit, holder := .ticker }
+def doDrainUnlock (s : S) : S := { s with tpc := .tend, holder := .free }
 /-- the ticker goroutine's critical section: `root.reset()`, then the service loop -/
 def doTickRuns (s : S) : S :=
   let t := service s.cap s.chain s.closed (s.ticks + 1) (fun x => if resets s x then 0 else s.used x) s.waiting
   { s with used := t.used, last := fun x => if resets s x then s.used x else s.last x, waiting := t.waiting,
-           answered := t.answers ++ s.answered, glog := t.grants ++ s.glog, ticks := s.ticks + 1, tpc := .sel }
+           answered := t.answers ++ s.answered, glog := t.grants ++ s.glog, ticks := s.ticks + 1, tpc := .tunl,
+           capMax := fun p x => if p = s.ticks + 1 then s.cap x else s.capMax p x }
 /-- the hand-over on the unbuffered `done` channel: sender and receiver move together -/
 def doDoneReceived (s : S) : S := { s with tpc := .dlock, cpc := .ret }
 /-- the final drain: every waiting request fails -/
 def doDrain (s : S) : S :=
-  { s with answered := s.waiting.map (fun r => (r.id, Ans.errClosed)) ++ s.answered, waiting := [], tpc := .tend }
+  { s with answered := s.waiting.map (fun r => (r.id, Ans.errClosed)) ++ s.answered, waiting := [], tpc := .dunl }
 /-- `SetCap(capacity)` (capacities are `Nat`: the new cap is non-negative) -/
-def doSetCap (s : S) (l c : Nat) : S := { s with cap := upd s.cap l c, setCaps := s.setCaps + 1, capHi := max s.capHi c }
+def doSetCap (s : S) (l c : Nat) : S :=
+  { s with cap := upd s.cap l c, setCaps := s.setCaps + 1, capHi := max s.capHi c,
+           capMax := fun p x => if p = s.ticks ∧ x = l then max (s.capMax p x) c else s.capMax p x }
 
 /-! ### the transition relation -/
 
 inductive Step : S → S → Prop
-  -- `Use(amount)`: the answer given before the lock is taken …
+  -- `Use(amount)`: the answer given before the lock is taken
   | useNeg (s : S) : Step s (answer s .errNeg)
-  -- … and the five outcomes under the lock (closed is checked first, for every non-negative amount)
-  | useClosed (s : S) (l : Nat) (hl : l < s.n) (h0 : s.lockHeld = false) (h : s.closed l = true) :
-      Step s (answer s .errClosed)
-  | useZero (s : S) (l : Nat) (hl : l < s.n) (h0 : s.lockHeld = false) (h1 : s.closed l = false) :
-      Step s (doUseZero s l)
-  | useTooBig (s : S) (l amt : Nat) (hl : l < s.n) (h0 : s.lockHeld = false) (h1 : s.closed l = false)
-      (h2 : amt > s.cap l) : Step s (answer s .errCap)
-  | useGrant (s : S) (l amt : Nat) (hl : l < s.n) (ha : 0 < amt) (h0 : s.lockHeld = false) (h1 : s.closed l = false)
-      (h2 : amt ≤ s.cap l) (h3 : fits s.cap s.used (s.chain l) amt = true) : Step s (doUseGrant s l amt)
-  | useWait (s : S) (l amt : Nat) (hl : l < s.n) (ha : 0 < amt) (h0 : s.lockHeld = false) (h1 : s.closed l = false)
-      (h2 : amt ≤ s.cap l) (h3 : fits s.cap s.used (s.chain l) amt = false) : Step s (doUseWait s l amt)
-  | newChild (s : S) (p c : Nat) (hp : p < s.n) (h0 : s.lockHeld = false) (h1 : s.closed p = false) :
-      Step s (doNewChild s p c)
-  | closeChild (s : S) (l : Nat) (hl : l < s.n) (hr : l ≠ 0) (h0 : s.lockHeld = false) (h1 : s.closed l = false) :
-      Step s (doCloseChild s l)
-  | closeRoot (s : S) (h0 : s.lockHeld = false) (h1 : s.closed 0 = false) (h2 : s.cpc = .idle) :
+  -- any caller of the API gets the lock …
+  | apiLock (s : S) (h : s.holder = .free) : Step s (lockApi s)
+  -- … and executes its body and unlocks: a read (`Cap`, `LastUsed`, `Closed`), `New`/`Close` on a closed limiter, …
+  | apiRead (s : S) (h : s.holder = .api) : Step s (unlock s)
+  -- … the five outcomes of `Use` under the lock (closed is checked first, for every non-negative amount), …
+  | useClosed (s : S) (l : Nat) (hl : l < s.n) (h0 : s.holder = .api) (h : s.closed l = true) :
+      Step s (unlock (answer s .errClosed))
+  | useZero (s : S) (l : Nat) (hl : l < s.n) (h0 : s.holder = .api) (h1 : s.closed l = false) :
+      Step s (unlock (doUseZero s l))
+  | useTooBig (s : S) (l amt : Nat) (hl : l < s.n) (h0 : s.holder = .api) (h1 : s.closed l = false)
+      (h2 : amt > s.cap l) : Step s (unlock (answer s .errCap))
+  | useGrant (s : S) (l amt : Nat) (hl : l < s.n) (ha : 0 < amt) (h0 : s.holder = .api) (h1 : s.closed l = false)
+      (h2 : amt ≤ s.cap l) (h3 : fits s.cap s.used (s.chain l) amt = true) : Step s (unlock (doUseGrant s l amt))
+  | useWait (s : S) (l amt : Nat) (hl : l < s.n) (ha : 0 < amt) (h0 : s.holder = .api) (h1 : s.closed l = false)
+      (h2 : amt ≤ s.cap l) (h3 : fits s.cap s.used (s.chain l) amt = false) : Step s (unlock (doUseWait s l amt))
+  -- … `New`, child `Close`, `SetCap`
+  | newChild (s : S) (p c : Nat) (hp : p < s.n) (h0 : s.holder = .api) (h1 : s.closed p = false) :
+      Step s (unlock (doNewChild s p c))
+  | closeChild (s : S) (l : Nat) (hl : l < s.n) (hr : l ≠ 0) (h0 : s.holder = .api) (h1 : s.closed l = false) :
+      Step s (unlock (doCloseChild s l))
+  | setCap (s : S) (l c : Nat) (hl : l < s.n) (h0 : s.holder = .api) : Step s (unlock (doSetCap s l c))
+  -- root `Close` (as repaired): lock / mark / unlock / send
+  | closeLock (s : S) (h0 : s.holder = .free) (h2 : s.cpc = .idle) : Step s (doCloseLock s)
+  | closeRoot (s : S) (h0 : s.holder = .closer) (h1 : s.closed 0 = false) (h2 : s.cpc = .crit) :
       Step s (doCloseRootMark s)
-  | setCap (s : S) (l c : Nat) (hl : l < s.n) (h0 : s.lockHeld = false) : Step s (doSetCap s l c)
-  -- ticker goroutine
+  | closeSkip (s : S) (h1 : s.closed 0 = true) (h2 : s.cpc = .crit) : Step s (doCloseSkip s)
+  | closeUnlock (s : S) (h2 : s.cpc = .marked) : Step s (doCloseUnlock s)
+  -- ticker goroutine: select / lock / body / unlock
   | tickFires (s : S) (h : s.tpc = .sel) : Step s (doTickFires s)
-  | tickRuns (s : S) (h1 : s.tpc = .tlock) (h0 : s.lockHeld = false) : Step s (doTickRuns s)
+  | tickLock (s : S) (h1 : s.tpc = .tlock) (h0 : s.holder = .free) : Step s (doTickLock s)
+  | tickRuns (s : S) (h1 : s.tpc = .tcrit) (h0 : s.holder = .ticker) : Step s (doTickRuns s)
+  | tickUnlock (s : S) (h1 : s.tpc = .tunl) : Step s (doTickUnlock s)
+  -- the hand-over on the unbuffered `done` channel (sender blocked at `send`, receiver at its `select`)
   | doneReceived (s : S) (h1 : s.tpc = .sel) (h2 : s.cpc = .send) : Step s (doDoneReceived s)
-  | drain (s : S) (h1 : s.tpc = .dlock) (h0 : s.lockHeld = false) : Step s (doDrain s)
+  | drainLock (s : S) (h1 : s.tpc = .dlock) (h0 : s.holder = .free) : Step s (doDrainLock s)
+  | drain (s : S) (h1 : s.tpc = .dcrit) (h0 : s.holder = .ticker) : Step s (doDrain s)
+  | drainUnlock (s : S) (h1 : s.tpc = .dunl) : Step s (doDrainUnlock s)
+
+/-- The same system with root `Close` as it was before commit 3e6b23a (`seeded/revert-c16-close-deadlock`): every step
+    of `Step` except the closer's unlock-before-send, plus the hand-over of `done` with the lock still held and the
+    unlock after it. -/
+inductive StepU : S → S → Prop
+  | common (s s' : S) (st : Step s s') (h : ¬ (s.cpc = .marked ∧ s'.cpc = .send)) : StepU s s'
+  | sendHeld (s : S) (h1 : s.cpc = .marked) (h2 : s.tpc = .sel) : StepU s (doSendHeld s)
+  | unlockAfter (s : S) (h : s.cpc = .unl) : StepU s (doUnlockAfter s)
+
+inductive ReachableU (rootCap : Nat) : S → Prop
+  | init : ReachableU rootCap (init rootCap)
+  | step (s s' : S) : ReachableU rootCap s → StepU s s' → ReachableU rootCap s'
 
 inductive Reachable (rootCap : Nat) : S → Prop
   | init : Reachable rootCap (init rootCap)
@@ -182,11 +249,127 @@ theorem Reachable.steps {c : Nat} {s t : S} (h : Reachable c s) (st : Steps s t)
   | refl => exact h
   | tail t u _ hu ih => exact Reachable.step t u ih hu
 
-/-! ### the executable scheduler used by the driver
+/-! ### single steps as a total function, schedules, and the fused scheduler used by the driver -/
 
-One call = one call of the exported API made while no other goroutine is inside the package (`tick` = the ticker
-goroutine receives a tick and runs its critical section; `close 0` = root `Close` including the hand-over and the final
-drain of the goroutine). -/
+/-- the steps of `Step`, named; `use`/`newChild`/`closeChild`/`setCap` are the bodies executed by the API holder -/
+inductive Micro
+  | useNeg | apiLock | apiRead
+  | use (l amt : Nat) | newChild (p c : Nat) | closeChild (l : Nat) | setCap (l c : Nat)
+  | closeLock | closeMark | closeSkip | closeUnlock
+  | tickFires | tickLock | tickRuns | tickUnlock | doneReceived | drainLock | drain | drainUnlock
+deriving Repr
+
+/-- take the named step if it is enabled, stay otherwise -/
+def micro (s : S) : Micro → S
+  | .useNeg => answer s .errNeg
+  | .apiLock => if s.holder = .free then lockApi s else s
+  | .apiRead => if s.holder = .api then unlock s else s
+  | .use l amt =>
+    if l < s.n ∧ s.holder = .api then
+      if s.closed l then unlock (answer s .errClosed)
+      else if amt = 0 then unlock (doUseZero s l)
+      else if amt > s.cap l then unlock (answer s .errCap)
+      else if fits s.cap s.used (s.chain l) amt then unlock (doUseGrant s l amt)
+      else unlock (doUseWait s l amt)
+    else s
+  | .newChild p c =>
+    if p < s.n ∧ s.holder = .api then (if s.closed p then unlock s else unlock (doNewChild s p c)) else s
+  | .closeChild l =>
+    if l < s.n ∧ l ≠ 0 ∧ s.holder = .api then (if s.closed l then unlock s else unlock (doCloseChild s l)) else s
+  | .setCap l c => if l < s.n ∧ s.holder = .api then unlock (doSetCap s l c) else s
+  | .closeLock => if s.holder = .free ∧ s.cpc = .idle then doCloseLock s else s
+  | .closeMark => if s.holder = .closer ∧ s.closed 0 = false ∧ s.cpc = .crit then doCloseRootMark s else s
+  | .closeSkip => if s.closed 0 = true ∧ s.cpc = .crit then doCloseSkip s else s
+  | .closeUnlock => if s.cpc = .marked then doCloseUnlock s else s
+  | .tickFires => if s.tpc = .sel then doTickFires s else s
+  | .tickLock => if s.tpc = .tlock ∧ s.holder = .free then doTickLock s else s
+  | .tickRuns => if s.tpc = .tcrit ∧ s.holder = .ticker then doTickRuns s else s
+  | .tickUnlock => if s.tpc = .tunl then doTickUnlock s else s
+  | .doneReceived => if s.tpc = .sel ∧ s.cpc = .send then doDoneReceived s else s
+  | .drainLock => if s.tpc = .dlock ∧ s.holder = .free then doDrainLock s else s
+  | .drain => if s.tpc = .dcrit ∧ s.holder = .ticker then doDrain s else s
+  | .drainUnlock => if s.tpc = .dunl then doDrainUnlock s else s
+
+/-- `micro` takes a step of the relation or none -/
+theorem micro_step (s : S) (m : Micro) : micro s m = s ∨ Step s (micro s m) := by
+  cases m with
+  | useNeg => exact Or.inr (.useNeg s)
+  | apiLock => simp only [micro]; split; exact Or.inr (.apiLock s ‹_›); exact Or.inl rfl
+  | apiRead => simp only [micro]; split; exact Or.inr (.apiRead s ‹_›); exact Or.inl rfl
+  | use l amt =>
+    simp only [micro]
+    split
+    · rename_i h
+      split
+      · rename_i hc; exact Or.inr (.useClosed s l h.1 h.2 hc)
+      · rename_i hc
+        have hc : s.closed l = false := by simpa using hc
+        split
+        · rename_i hz; subst hz; exact Or.inr (.useZero s l h.1 h.2 hc)
+        · rename_i hz
+          split
+          · rename_i hb; exact Or.inr (.useTooBig s l amt h.1 h.2 hc hb)
+          · rename_i hb
+            split
+            · rename_i hf; exact Or.inr (.useGrant s l amt h.1 (by omega) h.2 hc (by omega) hf)
+            · rename_i hf; exact Or.inr (.useWait s l amt h.1 (by omega) h.2 hc (by omega) (by simpa using hf))
+    · exact Or.inl rfl
+  | newChild p c =>
+    simp only [micro]
+    split
+    · rename_i h
+      split
+      · exact Or.inr (.apiRead s h.2)
+      · rename_i hc; exact Or.inr (.newChild s p c h.1 h.2 (by simpa using hc))
+    · exact Or.inl rfl
+  | closeChild l =>
+    simp only [micro]
+    split
+    · rename_i h
+      split
+      · exact Or.inr (.apiRead s h.2.2)
+      · rename_i hc; exact Or.inr (.closeChild s l h.1 h.2.1 h.2.2 (by simpa using hc))
+    · exact Or.inl rfl
+  | setCap l c => simp only [micro]; split; exact Or.inr (.setCap s l c (‹_ ∧ _›).1 (‹_ ∧ _›).2); exact Or.inl rfl
+  | closeLock => simp only [micro]; split; exact Or.inr (.closeLock s (‹_ ∧ _›).1 (‹_ ∧ _›).2); exact Or.inl rfl
+  | closeMark =>
+    simp only [micro]; split
+    · rename_i h; exact Or.inr (.closeRoot s h.1 h.2.1 h.2.2)
+    · exact Or.inl rfl
+  | closeSkip => simp only [micro]; split; exact Or.inr (.closeSkip s (‹_ ∧ _›).1 (‹_ ∧ _›).2); exact Or.inl rfl
+  | closeUnlock => simp only [micro]; split; exact Or.inr (.closeUnlock s ‹_›); exact Or.inl rfl
+  | tickFires => simp only [micro]; split; exact Or.inr (.tickFires s ‹_›); exact Or.inl rfl
+  | tickLock => simp only [micro]; split; exact Or.inr (.tickLock s (‹_ ∧ _›).1 (‹_ ∧ _›).2); exact Or.inl rfl
+  | tickRuns => simp only [micro]; split; exact Or.inr (.tickRuns s (‹_ ∧ _›).1 (‹_ ∧ _›).2); exact Or.inl rfl
+  | tickUnlock => simp only [micro]; split; exact Or.inr (.tickUnlock s ‹_›); exact Or.inl rfl
+  | doneReceived => simp only [micro]; split; exact Or.inr (.doneReceived s (‹_ ∧ _›).1 (‹_ ∧ _›).2); exact Or.inl rfl
+  | drainLock => simp only [micro]; split; exact Or.inr (.drainLock s (‹_ ∧ _›).1 (‹_ ∧ _›).2); exact Or.inl rfl
+  | drain => simp only [micro]; split; exact Or.inr (.drain s (‹_ ∧ _›).1 (‹_ ∧ _›).2); exact Or.inl rfl
+  | drainUnlock => simp only [micro]; split; exact Or.inr (.drainUnlock s ‹_›); exact Or.inl rfl
+
+/-- a schedule: named steps taken one after the other -/
+def runMicros (s : S) (ms : List Micro) : S := ms.foldl micro s
+
+/-- every schedule is a run of the transition relation -/
+theorem runMicros_steps (s : S) (ms : List Micro) : Steps s (runMicros s ms) := by
+  induction ms generalizing s with
+  | nil => exact .refl s
+  | cons m ms ih =>
+    have h2 : Steps (micro s m) (runMicros (micro s m) ms) := ih (micro s m)
+    have h1 : Steps s (micro s m) := by
+      rcases micro_step s m with h | h
+      · rw [h]; exact .refl s
+      · exact .tail _ _ _ (.refl s) h
+    show Steps s (runMicros (micro s m) ms)
+    generalize runMicros (micro s m) ms = u at h2
+    induction h2 with
+    | refl => exact h1
+    | tail t u _ hu ih2 => exact .tail _ _ _ ih2 hu
+
+/-! The fused scheduler: one call = one call of the exported API made while no other goroutine is inside the package
+    (`tick` = the ticker goroutine receives a tick, takes the lock, runs its body and unlocks; `close 0` = root `Close`
+    — lock, mark, unlock, hand-over — followed by the goroutine's final drain).  The finer interleavings are run by the
+    driver through `runMicros` directly (area `window`). -/
 
 inductive Op
   | use (l : Nat) (amt : Int)
@@ -196,90 +379,27 @@ inductive Op
   | setCap (l c : Nat)
 deriving Repr
 
-def exec (s : S) : Op → S
+/-- the steps a fused call consists of -/
+def plan (s : S) : Op → List Micro
   | .use l amt =>
-    if l < s.n then
-      if amt < 0 then answer s .errNeg
-      else if s.lockHeld then s
-      else if s.closed l then answer s .errClosed
-      else if amt = 0 then doUseZero s l
-      else if amt.toNat > s.cap l then answer s .errCap
-      else if fits s.cap s.used (s.chain l) amt.toNat then doUseGrant s l amt.toNat
-      else doUseWait s l amt.toNat
-    else s
-  | .tick => if s.tpc = .sel ∧ s.lockHeld = false then doTickRuns (doTickFires s) else s
-  | .newChild p c => if p < s.n ∧ s.lockHeld = false ∧ s.closed p = false then doNewChild s p c else s
+    if l < s.n then (if amt < 0 then [.useNeg] else if s.holder = .free then [.apiLock, .use l amt.toNat] else []) else []
+  | .tick => if s.tpc = .sel ∧ s.holder = .free then [.tickFires, .tickLock, .tickRuns, .tickUnlock] else []
+  | .newChild p c => if p < s.n ∧ s.holder = .free then [.apiLock, .newChild p c] else []
   | .close l =>
-    if l < s.n ∧ s.lockHeld = false ∧ s.closed l = false then
+    if l < s.n ∧ s.holder = .free then
       if l = 0 then
-        if s.cpc = .idle ∧ s.tpc = .sel then doDrain (doDoneReceived (doCloseRootMark s)) else s
-      else doCloseChild s l
-    else s
-  | .setCap l c => if l < s.n ∧ s.lockHeld = false then doSetCap s l c else s
+        if s.closed 0 then [.apiLock, .apiRead]
+        else if s.cpc = .idle ∧ s.tpc = .sel then
+          [.closeLock, .closeMark, .closeUnlock, .doneReceived, .drainLock, .drain, .drainUnlock]
+        else []
+      else [.apiLock, .closeChild l]
+    else []
+  | .setCap l c => if l < s.n ∧ s.holder = .free then [.apiLock, .setCap l c] else []
+
+def exec (s : S) (op : Op) : S := runMicros s (plan s op)
 
 /-- every run of the scheduler is a run of the transition relation -/
-theorem exec_steps (s : S) (op : Op) : Steps s (exec s op) := by
-  cases op with
-  | use l amt =>
-    simp only [exec]
-    split
-    · rename_i hl
-      split
-      · exact .tail _ _ _ (.refl _) (.useNeg s)
-      · rename_i hn
-        split
-        · exact .refl _
-        · rename_i hlk
-          have hlk : s.lockHeld = false := by simpa using hlk
-          split
-          · rename_i hc; exact .tail _ _ _ (.refl _) (.useClosed s l hl hlk hc)
-          · rename_i hc
-            have hc : s.closed l = false := by simpa using hc
-            split
-            · exact .tail _ _ _ (.refl _) (.useZero s l hl hlk hc)
-            · rename_i hz
-              have hpos : 0 < amt.toNat := by omega
-              split
-              · rename_i hb; exact .tail _ _ _ (.refl _) (.useTooBig s l _ hl hlk hc hb)
-              · rename_i hb
-                split
-                · rename_i hf; exact .tail _ _ _ (.refl _) (.useGrant s l _ hl hpos hlk hc (by omega) hf)
-                · rename_i hf
-                  exact .tail _ _ _ (.refl _) (.useWait s l _ hl hpos hlk hc (by omega) (by simpa using hf))
-    · exact .refl _
-  | tick =>
-    simp only [exec]
-    split
-    · rename_i h
-      exact .tail _ _ _ (.tail _ _ _ (.refl _) (.tickFires s h.1)) (.tickRuns _ rfl h.2)
-    · exact .refl _
-  | newChild p c =>
-    simp only [exec]
-    split
-    · rename_i h; exact .tail _ _ _ (.refl _) (.newChild s p c h.1 h.2.1 h.2.2)
-    · exact .refl _
-  | close l =>
-    simp only [exec]
-    split
-    · rename_i h
-      split
-      · rename_i h0
-        subst h0
-        split
-        · rename_i h2
-          have a1 : Steps s (doCloseRootMark s) := .tail _ _ _ (.refl _) (.closeRoot s h.2.1 h.2.2 h2.1)
-          have a2 : Steps s (doDoneReceived (doCloseRootMark s)) :=
-            .tail _ _ _ a1 (.doneReceived (doCloseRootMark s) h2.2 rfl)
-          exact .tail _ _ _ a2 (.drain (doDoneReceived (doCloseRootMark s)) rfl h.2.1)
-        · exact .refl _
-      · rename_i h0
-        exact .tail _ _ _ (.refl _) (.closeChild s l h.1 h0 h.2.1 h.2.2)
-    · exact .refl _
-  | setCap l c =>
-    simp only [exec]
-    split
-    · rename_i h; exact .tail _ _ _ (.refl _) (.setCap s l c h.1 h.2)
-    · exact .refl _
+theorem exec_steps (s : S) (op : Op) : Steps s (exec s op) := runMicros_steps s (plan s op)
 
 /-! ### observations -/
 
